@@ -180,6 +180,10 @@ func (da *DistributedAllocator) Allocate(ctx context.Context, subscriberID strin
 	da.mu.Lock()
 	defer da.mu.Unlock()
 
+	// Allocate is idempotent: remember whether the subscriber already held an
+	// allocation, so that a failed store write only undoes what this call added.
+	existed := da.hasLocalAllocation(subscriberID)
+
 	var prefix *net.IPNet
 	var epoch uint64
 
@@ -214,10 +218,12 @@ func (da *DistributedAllocator) Allocate(ctx context.Context, subscriberID strin
 
 	if err := da.saveAllocation(ctx, alloc); err != nil {
 		// Rollback local allocation
-		if da.mode == PoolModeLease {
-			da.epochAllocator.Release(ctx, subscriberID)
-		} else {
-			da.allocator.Release(subscriberID)
+		if !existed {
+			if da.mode == PoolModeLease {
+				da.epochAllocator.Release(ctx, subscriberID)
+			} else {
+				da.allocator.Release(subscriberID)
+			}
 		}
 		return nil, fmt.Errorf("save allocation: %w", err)
 	}
@@ -229,6 +235,10 @@ func (da *DistributedAllocator) Allocate(ctx context.Context, subscriberID strin
 func (da *DistributedAllocator) AllocateWithMAC(ctx context.Context, subscriberID string, mac net.HardwareAddr) (*net.IPNet, error) {
 	da.mu.Lock()
 	defer da.mu.Unlock()
+
+	// Allocate is idempotent: remember whether the subscriber already held an
+	// allocation, so that a failed store write only undoes what this call added.
+	existed := da.hasLocalAllocation(subscriberID)
 
 	var prefix *net.IPNet
 	var epoch uint64
@@ -260,10 +270,12 @@ func (da *DistributedAllocator) AllocateWithMAC(ctx context.Context, subscriberI
 	}
 
 	if err := da.saveAllocation(ctx, alloc); err != nil {
-		if da.mode == PoolModeLease {
-			da.epochAllocator.Release(ctx, subscriberID)
-		} else {
-			da.allocator.Release(subscriberID)
+		if !existed {
+			if da.mode == PoolModeLease {
+				da.epochAllocator.Release(ctx, subscriberID)
+			} else {
+				da.allocator.Release(subscriberID)
+			}
 		}
 		return nil, fmt.Errorf("save allocation: %w", err)
 	}
@@ -300,18 +312,29 @@ func (da *DistributedAllocator) Release(ctx context.Context, subscriberID string
 	da.mu.Lock()
 	defer da.mu.Unlock()
 
-	// Release from appropriate allocator
-	if da.mode == PoolModeLease {
-		if err := da.epochAllocator.Release(ctx, subscriberID); err != nil {
-			return err
-		}
-	} else {
-		if err := da.allocator.Release(subscriberID); err != nil {
+	// Remove the durable record first: if the store refuses, memory and store
+	// still agree and the caller can retry. A subscriber without a local
+	// allocation takes the allocator's own "not allocated" error path.
+	if da.hasLocalAllocation(subscriberID) {
+		if err := da.deleteAllocation(ctx, subscriberID); err != nil {
 			return err
 		}
 	}
 
-	return da.deleteAllocation(ctx, subscriberID)
+	// Release from appropriate allocator
+	if da.mode == PoolModeLease {
+		return da.epochAllocator.Release(ctx, subscriberID)
+	}
+	return da.allocator.Release(subscriberID)
+}
+
+// hasLocalAllocation reports whether the in-memory allocator holds an
+// allocation for the subscriber. Callers hold da.mu.
+func (da *DistributedAllocator) hasLocalAllocation(subscriberID string) bool {
+	if da.mode == PoolModeLease {
+		return da.epochAllocator.Lookup(subscriberID) != nil
+	}
+	return da.allocator.Lookup(subscriberID) != nil
 }
 
 // Get returns the allocation for a subscriber.
